@@ -478,7 +478,10 @@ def run(ctx):
     sfx = '_thorough' if thorough else ''
     # design models, side by side (each TLC run in a work directory of its own)
     def mc(sub, module, cfg, cover, what, label=None):
-        r = tlc.run(module, cfg, os.path.join(ctx.work, sub), workers=NCPU, coverage=True, timeout=1500)
+        try:
+            r = tlc.run(module, cfg, os.path.join(ctx.work, sub), workers=NCPU, coverage=True, timeout=1500)
+        except tlc.TlcError as e:
+            raise tlc.TlcError('%s/%s: %s' % (module, cfg, e))
         run_ = dict(module=module, cfg=cfg, **r.summary())
         if label:
             run_['label'] = label
